@@ -166,6 +166,7 @@ type FnCtx struct {
 	params  []types.Object
 	recv    types.Object
 	specNames map[string]types.Object // contract param name -> object
+	bareLoops  []string                     // loops executed without an invariant from the contract
 	abstracted []string                     // external callees abstracted in this function
 	rootFi    *FuncInfo                     // while a contract-less callee is inlined: the function under verification
 	objAlias  map[types.Object]types.Object // inlined callee's pointer receiver -> the caller's pointer variable
